@@ -144,6 +144,8 @@ func jsonEscape(value Expr) interface{} {
 
 func jsonUnescape(i interface{}) (Value, error) {
 	switch x := i.(type) {
+	case nil:
+		return nil, errors.Errorf("null cannot be converted to a value")
 	case bool:
 		if x {
 			return True, nil
